@@ -112,13 +112,15 @@ theorem protected_names_never_advertised (C : RpcClass) (ms : List Name) (h : co
   · cases h
   · rename_i hany
     split at h
-    · injection h with h
-      subst h
-      intro n hn hmem
-      apply hany
-      rw [List.any_eq_true]
-      exact ⟨n, hmem, List.contains_iff_mem.mpr hn⟩
     · cases h
+    · split at h
+      · injection h with h
+        subst h
+        intro n hn hmem
+        apply hany
+        rw [List.any_eq_true]
+        exact ⟨n, hmem, List.contains_iff_mem.mpr hn⟩
+      · cases h
 
 /-- the descriptor, when it can be built, lists exactly `advertised` -/
 theorem construct_ok_eq (C : RpcClass) (ms : List Name) (h : construct C = .ok ms) : ms = advertised C := by
@@ -126,16 +128,34 @@ theorem construct_ok_eq (C : RpcClass) (ms : List Name) (h : construct C = .ok m
   split at h
   · cases h
   · split at h
-    · injection h with h; exact h.symm
     · cases h
+    · split at h
+      · injection h with h; exact h.symm
+      · cases h
+
+/-- a constructible object's signals have neither the name of an advertised method nor a lock-control name -/
+theorem construct_ok_sigs (C : RpcClass) (ms : List Name) (h : construct C = .ok ms) :
+    ∀ s ∈ C.sigs, isAdvertised C s = false ∧ s ∉ protectedNames := by
+  unfold construct at h
+  split at h
+  · cases h
+  · split at h
+    · cases h
+    · rename_i hs
+      simp only [Bool.not_eq_true', Bool.not_eq_false, List.all_eq_true, sigOk, Bool.and_eq_true] at hs
+      intro s hmem
+      have := hs s hmem
+      refine ⟨this.1, fun e => ?_⟩
+      rw [List.contains_iff_mem.mpr e] at this
+      exact absurd this.2 (by simp)
 
 /-- a well-formed class whose `_rpc_constants` pass the asserts can be constructed, and its descriptor lists exactly
 `advertised` -/
-theorem construct_ok_of_wf (C : RpcClass) (h : WellFormed C) (hc : C.consts.all (constOk C) = true) :
-    construct C = .ok (advertised C) := by
+theorem construct_ok_of_wf (C : RpcClass) (h : WellFormed C) (hs : C.sigs.all (sigOk C) = true)
+    (hc : C.consts.all (constOk C) = true) : construct C = .ok (advertised C) := by
   have hp := ((wellFormed_iff C).mp h).2
   unfold construct
-  rw [if_neg, if_pos hc]
+  rw [if_neg, if_neg (by rw [hs]; simp), if_pos hc]
   intro hany
   rw [List.any_eq_true] at hany
   obtain ⟨n, hmem, hc⟩ := hany
@@ -227,16 +247,18 @@ theorem handle_sound (C : RpcClass) (h : WellFormed C) (hn : dynAttrRunsCode C n
 
 /-! ## the proxy built from the descriptor -/
 
-/-- **The proxy forwards exactly the advertised methods**: if the object can be constructed and no signal, `address`
-or `rpc_nonblocking` is an advertised method (`proxyCleanB`, checked per shipped class), `QMI_RpcProxy.__init__`
-succeeds and the names that end up as forwarding stubs are the descriptor's method list. -/
+/-- **The proxy forwards exactly the advertised methods**, for every object that can be constructed — signals
+included: `construct` refuses a signal with the name of a method, so no subscriber takes a stub's place.  What remains
+as side condition (`proxyCleanB`, checked per shipped class) are the names the proxy uses itself: `address`,
+`rpc_nonblocking`. -/
 theorem proxy_forwards_advertised (C : RpcClass) (ms : List Name) (hc : construct C = .ok ms)
     (hp : proxyCleanB C = true) : proxyBuild ms C.consts C.sigs = .ok ms := by
+  have hsig := construct_ok_sigs C ms hc
   have hms := construct_ok_eq C ms hc
   subst hms
   unfold proxyCleanB at hp
-  simp only [Bool.and_eq_true, List.all_eq_true, Bool.not_eq_true', List.mem_cons] at hp
-  obtain ⟨hadv, hcs⟩ := hp
+  simp only [Bool.and_eq_true, List.all_eq_true, Bool.not_eq_true', List.mem_cons, List.mem_nil_iff, or_false] at hp
+  obtain ⟨⟨hadv, hcs⟩, _⟩ := hp
   have hcs' : n_address ∉ C.consts ++ C.sigs := fun e => by
     rw [List.contains_iff_mem.mpr e] at hcs; cases hcs
   unfold proxyBuild
@@ -250,10 +272,10 @@ theorem proxy_forwards_advertised (C : RpcClass) (ms : List Name) (hc : construc
     · cases hcc : C.sigs.contains a with
       | false => rfl
       | true =>
-        have := hadv a (Or.inr (Or.inr (List.contains_iff_mem.mp hcc)))
+        have := (hsig a (List.contains_iff_mem.mp hcc)).1
         rw [haa] at this; cases this
     · intro e
-      have := hadv a (Or.inr (Or.inl e))
+      have := hadv a (Or.inr e)
       rw [haa] at this; cases this
   · intro hcon
     have hmem := List.contains_iff_mem.mp hcon
@@ -263,6 +285,19 @@ theorem proxy_forwards_advertised (C : RpcClass) (ms : List Name) (hc : construc
     · have := hadv n_address (Or.inl rfl)
       rw [(mem_advertised_iff C n_address).mp h1] at this; cases this
     · exact hcs' (Or.inr h1)
+
+/-- **The proxy's lock-control entry points are never shadowed**: for every constructible object no lock-control name
+is a method stub or a signal subscriber (and, with `proxyCleanB`, not a constant either), so `lock`, `unlock`,
+`force_unlock`, `is_locked` on the proxy stay the proxy's own methods. -/
+theorem proxy_never_shadowed (C : RpcClass) (ms : List Name) (hc : construct C = .ok ms) (hp : proxyCleanB C = true) :
+    ∀ n ∈ protectedNames, n ∉ ms ∧ n ∉ C.sigs ∧ n ∉ C.consts := by
+  intro n hn
+  refine ⟨protected_names_never_advertised C ms hc n hn, fun e => (construct_ok_sigs C ms hc n e).2 hn, fun e => ?_⟩
+  unfold proxyCleanB at hp
+  simp only [Bool.and_eq_true, Bool.not_eq_true'] at hp
+  have h3 := hp.2
+  rw [List.any_eq_false] at h3
+  exact h3 n e (List.contains_iff_mem.mpr hn)
 
 /-- whatever the signals and constants are: a lock-control name is never a forwarding stub of a proxy (so the proxy's own
 `lock`/`unlock`/`force_unlock`/`is_locked` are never taken over) -/
@@ -373,6 +408,10 @@ example : proxyBuild [1, 2, 4] [3] [9] = .ok [1, 2, 4] := by rfl
 example : proxyBuild [1, 2, 4] [] [2] = .ok [1, 4] := by rfl
 example : proxyBuild [1, n_address] [] [] = .error .attributeError := by rfl
 example : proxyCleanB { exC with sigs := [9], consts := [3] } = true := by decide
+/-- a task class declaring a signal named like a runner method (2) or `is_locked`: the runner cannot be constructed -/
+example : construct { exC with sigs := [2] } = .error .usage := by rfl
+example : construct { exC with sigs := [n_is_locked] } = .error .usage := by rfl
+example : construct { exC with sigs := [9] } = .ok [1, 2, 4] := by rfl
 
 /-- a class that marks `lock` cannot be constructed -/
 example : construct { mro := [[(n_lock, .func true true)], exBase] } = .error .usage := by rfl
